@@ -62,7 +62,8 @@ VECTORS = {
                     0x4dc4e29d283afd2a491fe6aef122b9a968e74eff05341f3cc23fda1781dcb566,
                     0x03ff622da276830b9451b88b85e6184fd6ae15c8ab3ee25a5667be8592cce3b1],
 }
-FIELD_OF = {"zkinterface": gh.PRIMES["bn254"], "zkifbellman": gh.PRIMES["bls12_381"], "zkifbulletproofs": gh.PRIMES["curve25519"]}
+FIELD_OF = {"zkinterface": gh.PRIMES["bn254"], "zkifbellman": gh.PRIMES["bls12_381"], "zkifbulletproofs": gh.PRIMES["curve25519"],
+            "nobackend": 10000}       # the dry-run backend's registered set (R_F = R_P = 2) over its stated modulus
 GHOST_AS = {"zkinterface": "pysnark.zkinterface.backend", "zkifbellman": "pysnark.zkinterface.backendbellman",
             "zkifbulletproofs": "pysnark.zkinterface.backendbulletproofs"}
 
@@ -99,12 +100,12 @@ class RoundCut:
         base = {0: 0, 1: rf // 2, 2: rf // 2 + rp}[self.phase]
         full = self.phase != 1
         lo, hi = self.K._range
-        for r in it:
+        for r, item in enumerate(it):     # the round index is the iteration's ordinal, whatever the loop iterates over
             if not (lo <= base + r < hi):
                 continue              # this configuration covers another slice of the round indices
             state = [c.operand("st_r%d_%d" % (base + r, i)) for i in range(K["t"])]
             fr.locals["sponge"] = list(state)
-            interp.assign(st.target, r, fr)
+            interp.assign(st.target, item, fr)
             n0 = len(c.g.trace)
             interp.exec_block(st.body, fr)
             out = fr.locals["sponge"]
@@ -177,7 +178,8 @@ class PermuteGround(_Hash):
         # warm="g0": the process's FIRST permutation ran inside a region whose guard is false (a hash in a branch not
         # taken); nothing it computed there may stick to later, unguarded permutations
         return [dict(params=k, input=inp) for k in ("zkinterface", "zkifbellman", "zkifbulletproofs") for inp in ("01234", "big")] + \
-               [dict(params="zkinterface", input="01234", warm="g0")]
+               [dict(params="zkinterface", input="01234", warm="g0")] + \
+               [dict(params="nobackend", input=inp) for inp in ("01234", "big")]   # the registered round NUMBERS rule, not the table's length
 
     def world_setup(self, w):
         from .backend_c import _stub_world
